@@ -109,6 +109,11 @@ def judge(case, stats=None):
                 bad('resolution-order-mutated-scope', f'scope now {scope_obj.items}')
             if any(x is scope_obj for x in order):
                 bad('resolution-order-aliases-scope', '')
+            if len(order) > 1:
+                snap = [list(x.items) for x in order]
+                order[0].items.append('zz')
+                if [list(x.items) for x in order[1:]] != snap[1:]:
+                    bad('resolution-order-elements-alias-each-other', '')
             # suffix search (scope irrelevant): only once per name
             if scope is None:
                 res = ast_view.find_any(fct, NamespaceIds(list(name)))
@@ -190,6 +195,10 @@ def judge_idlist(case):
             if both is left or both is right or both.items is left.items or both.items is right.items:
                 if ids:
                     bad('add-aliases', f'cut={cut}')
+            extended = left + right
+            extended += NamespaceIds(['zz'])
+            if left.items != ids[:cut] or right.items != ids[cut:] or extended.items != ids + ['zz']:
+                bad('add-result-shares-list-with-operand', f'cut={cut} left={left.items} right={right.items}')
             acc = NamespaceIds(ids[:cut])
             acc += right
             if acc.items != ids or right.items != ids[cut:]:
@@ -213,6 +222,14 @@ def judge_idlist(case):
                 bad('tree-member', f'cut={cut} -> {mfq.items}')
             if str(tree) != '.'.join(ids):
                 bad('tree-str', str(tree))
+            # three levels
+            for cut2 in range(cut, len(ids) + 1):
+                tree3 = NamespaceTree()
+                for part in (ids[:cut], ids[cut:cut2], ids[cut2:]):
+                    if part:
+                        tree3 = NamespaceTree(tree3, NamespaceIds(list(part)))
+                if tree3.fqn.items != ids or tree3.fqn_member_name(NamespaceIds(['m', 'n'])).items != ids + ['m', 'n']:
+                    bad('tree-fqn-3-levels', f'cuts={cut},{cut2} -> {tree3.fqn.items}')
     except Exception as exc:  # pylint: disable=broad-except
         bad(f'exception:{type(exc).__name__}', repr(exc))
     return out
@@ -285,8 +302,8 @@ def explore(ctx):
         sets += [[d, [d[0], KINDS[(KINDS.index(d[1]) + 3) % 7]]] for d in singles]   # same fqn, two kinds
         sets += [[d, [d[0], d[1]]] for d in singles[:9]]                              # declared twice
     jobs = [('decls', sets[i::32]) for i in range(32)]
-    maxlen = 4 if ctx.thorough else 3
-    jobs += [('strings', (i, 8, maxlen)) for i in range(8)]
+    maxlen = 5 if ctx.thorough else 4
+    jobs += [('strings', (i, 16, maxlen)) for i in range(16)]
     jobs += [('idlists', None)]
     for part in pmap(work, jobs):
         ctx.merge(part)
